@@ -152,7 +152,17 @@ def c17_cases(tier, rng):
     CODES = [421, 450, 452, 550, 552, 554]
     ENHS = ["5.7.1", "4.2.0", "0.0.0", "-1.-1.-1"]
     MSGS = [b"", b"plain", b" leading", b"trailing ", b"5.7.1 looks like a code", "café €".encode(), b"line one\nline two", b"a\nb\nc",
-            b"a\n5.7.1 b", b"x\n\ny"]
+            b"a\n5.7.1 b", b"x\n\ny", b"Rejected by policy:\n  - SPF check failed\n  - no DKIM signature", b"a\nb \nc", b"a\n \nb",
+            b"a\n\tb", b" a\n b"]
+    # a size limit on the server and a message just below, at and above it that the backend refuses with its own error
+    # after reading it: the backend's verdict is the reply, unless the limit was really exceeded
+    for lim in (7, 12):
+        for n in (lim - 1, lim, lim + 1):
+            for dec in (g.se(550, "5.7.1", b"Message rejected as spam"), g.se(451, "-1.-1.-1", b"try\nlater"), g.er(b"plain"), "ok"):
+                body = (b"abcdefghijklmnop"[:n - 2] + b"\r\n") if n >= 2 else b"a" * n
+                c = E2E(dict(ALL_ON, maxmsg=lim))
+                c.mail(b"s@x.org"); c.rcpt(b"r@x.org"); c.data([body], ret=dec); c.call("noop")
+                cases.append(c.case())
     for code in CODES:
         for enh in ENHS:
             for msg in MSGS:
